@@ -475,7 +475,7 @@ def main(tier, replay=None):
         return chk.finish()
     ob = check_obligations('C05')
     proof_coverage(chk, ob, 'make -f Makefile.coq -k Props/Properties_C05*.vo (coqc 8.16.1) + Print Assumptions',
-                   c01_model.TRUSTED + ['coq/Array/SyncModel.v (sync loop, save normalisation) + coq/Fix/ScanModel.v (minimal scan step) for the refutation witnesses', 'harness/c/shim.c'])
+                   c01_model.TRUSTED + ['coq/Array/SyncModel.v (sync loop, save normalisation) + coq/Fix/HistModel.v (minimal scan step, sync command, damage, version-store judge) for the refutation witnesses', 'harness/c/shim.c'])
     try:
         model = build_model('Extract/Extract_C01.vo', 'ocaml/C01', 'c01_ext', 'driver.ml', 'model')
     except BuildError as e:
